@@ -716,6 +716,7 @@ func (w *Worker) RunPath(job Job) (res PathResult) {
 			}
 		}()
 		call(i, nil, token.NoPos, w.Main.Func("init"), nil)
+		w.installEnv(i)
 		call(i, nil, token.NoPos, fn, nil)
 	}()
 	if res.Outcome == "ok" && e.replaying() {
@@ -970,6 +971,10 @@ func intrinsic(name string) externalFn {
 		}
 	case "svUF":
 		return svUF
+	case "svRandRead":
+		return func(fr *frame, args []value) value { return randFill(args[0].([]value)) }
+	case "svRandMode":
+		return func(fr *frame, args []value) value { ex.ghost["randmode"] = int(asInt64(args[0])); return nil }
 	case "svHeld":
 		return func(fr *frame, args []value) value {
 			ls := ex.locks[args[0].(*value)]
@@ -1038,4 +1043,37 @@ func svUF(fr *frame, args []value) value {
 		}
 	}
 	return out
+}
+
+// installEnv wires engine-provided environment objects into package globals
+// whose own initialisers are not run (crypto/rand.Reader).
+func (w *Worker) installEnv(i *interpreter) {
+	rp := i.prog.ImportedPackage("crypto/rand")
+	tm := w.Main.Type("svRandReader")
+	if rp == nil || tm == nil {
+		return
+	}
+	g, ok := rp.Members["Reader"].(*ssa.Global)
+	if !ok {
+		return
+	}
+	var cell value = iface{t: tm.Type(), v: structure{}}
+	i.globals[g] = &cell
+}
+
+// randFill models the system random source. Mode 0 (default): concrete bytes
+// that differ from call to call (so that two random boundaries or message ids
+// are never equal by accident of the model); mode 1: fresh symbolic bytes.
+func randFill(b []value) value {
+	c, _ := ex.ghost["randcalls"].(int)
+	ex.ghost["randcalls"] = c + 1
+	mode, _ := ex.ghost["randmode"].(int)
+	for j := range b {
+		if mode == 1 {
+			b[j] = ex.fresh("rand", 8, false)
+		} else {
+			b[j] = byte((c+1)*131 + j*37 + 11 + (c+1)*(j+3)*7)
+		}
+	}
+	return tuple{len(b), iface{}}
 }
